@@ -914,6 +914,18 @@ def r11j(ctx: Context) -> None:
                         cuts.append((node, literal, node.value))
             if isinstance(node, ast.Call) and isinstance(node.func, ast.Attribute) and node.func.attr == "removesuffix" and node.args and isinstance(node.args[0], ast.Constant):
                 cuts.append((node, node.args[0].value, node.func.value))
+    # a chain of removesuffix calls cuts the innermost one first: a sequence that is the tail of a later one ('-->' before
+    # '--->') takes part of it away, and the later one never matches
+    for holder in compiler_family:
+        for node in walk_local(holder.node):
+            if isinstance(node, ast.Call) and isinstance(node.func, ast.Attribute) and node.func.attr == "removesuffix" and node.args and isinstance(node.args[0], ast.Constant):
+                inner = node.func.value
+                while isinstance(inner, ast.Call) and isinstance(inner.func, ast.Attribute):
+                    if inner.func.attr == "removesuffix" and inner.args and isinstance(inner.args[0], ast.Constant):
+                        first, later = inner.args[0].value, node.args[0].value
+                        if isinstance(first, str) and isinstance(later, str) and later != first and later.endswith(first):
+                            rule.fail(func_key(holder, node) + " [order of cuts]", where(holder, node), f"'{first}' is cut off before '{later}': of a line ending in '{later}' only '{first}' is removed, the rest ('{later[:-len(first)]}') stays on the last rule id, so the pragma names no rule")
+                    inner = inner.func.value
     if not cuts:
         raise AnalysisError("compile_single_pragma: the place where the closing sequence is cut off was not found")
     compiler_strips = any({"rstrip", "strip"} & normalisations(cut_holder.get(id(node), compiler), text) for node, _literal, text in cuts)
